@@ -1088,14 +1088,8 @@ class XsdUnion(XsdSimpleType):
         mt: Any
         self.member_types = []
 
-        for child in self.elem:
-            if child.tag != nm.XSD_ANNOTATION and not callable(child.tag):
-                mt = self.builders.simple_type_factory(child, self.schema, self)
-                if isinstance(mt, XMLSchemaParseError):
-                    self.parse_error(mt)
-                else:
-                    self.member_types.append(mt)
-
+        # The member types named by the memberTypes attribute come first, in order,
+        # followed by the simpleType children (XSD Part 2, {member type definitions}).
         if 'memberTypes' in self.elem.attrib:
             for name in self.elem.attrib['memberTypes'].split():
                 try:
@@ -1125,6 +1119,14 @@ class XsdUnion(XsdSimpleType):
                     self.parse_error(msg % self.member_types)
 
                 self.member_types.append(mt)
+
+        for child in self.elem:
+            if child.tag != nm.XSD_ANNOTATION and not callable(child.tag):
+                mt = self.builders.simple_type_factory(child, self.schema, self)
+                if isinstance(mt, XMLSchemaParseError):
+                    self.parse_error(mt)
+                else:
+                    self.member_types.append(mt)
 
         if not self.member_types:
             self.parse_error(_("missing xs:union type declarations"))
